@@ -49,15 +49,20 @@ def _uniq():
     return context_statespace().uniq()
 
 
+def _reg(name, v):
+    STATE.setdefault("leaves", {})[name] = v
+    return v
+
+
 def sym_int(name: str, lo: int, hi: int):
     """A symbolic int with lo <= v <= hi (created in-body: no premature-realization fork)."""
     with NoTracing():
-        return SymbolicBoundedInt(name + _uniq(), int, lo, hi)
+        return _reg(name, SymbolicBoundedInt(name + _uniq(), int, lo, hi))
 
 
 def sym_bool(name: str):
     with NoTracing():
-        return SymbolicBool(name + _uniq())
+        return _reg(name, SymbolicBool(name + _uniq()))
 
 
 def sym_sel(name: str, n: int):
@@ -70,12 +75,15 @@ def sym_bytes(name: str, n: int) -> bytes:
     with NoTracing():
         sp = context_statespace()
         xs = [SymbolicBoundedInt(f"{name}{i}" + sp.uniq(), int, 0, 255) for i in range(n)]
-    return bytes(xs)
+    b = bytes(xs)
+    with NoTracing():
+        _reg(name, b)
+    return b
 
 
 def sym_str(name: str, maxlen: int, minlen: int = 0, ascii_only: bool = False) -> str:
     with NoTracing():
-        s = LazyIntSymbolicStr(name + _uniq())
+        s = _reg(name, LazyIntSymbolicStr(name + _uniq()))
     n = len(s)
     if n > maxlen or n < minlen:
         raise IgnoreAttempt("length bound")
@@ -88,11 +96,15 @@ def sym_str(name: str, maxlen: int, minlen: int = 0, ascii_only: bool = False) -
 
 def pick(name: str, options: list):
     """Solver-chosen element of a concrete list (forks len(options) ways)."""
-    i = sym_sel(name, len(options))
+    i = sym_sel(name + "#", len(options))
+    r = options[-1]
     for j, o in enumerate(options[:-1]):
         if i == j:
-            return o
-    return options[-1]
+            r = o
+            break
+    with NoTracing():
+        _reg(name, r)
+    return r
 
 
 def assume(cond):
@@ -230,7 +242,16 @@ def run_harness(harness, budget_s: float, per_path_s: float = 60.0, twin: bool =
         """
         with NoTracing():
             STATE["paths"] += 1
-        return harness()
+            STATE["leaves"] = {}
+        try:
+            return harness()
+        except Exception as e:  # an exception escaping the harness body is a failing path: record the leaves
+            with NoTracing():
+                if not STATE["twin"]:
+                    d = {k: _jsonable(realize(v)) for k, v in STATE.get("leaves", {}).items()}
+                    d["__exception__"] = type(e).__name__ + ": " + str(e)[:300]
+                    STATE["failed"] = d
+            return False
 
     wrapped.__name__ = getattr(harness, "__name__", "harness")
     wrapped.__qualname__ = wrapped.__name__
